@@ -311,11 +311,14 @@ func RunA(sc ScenarioA, fullPrime bool) *Result {
 // distinct addresses spread over four heights.
 type ParamsB struct {
 	NKeys    int    `json:"distinct_pubkeys"`
-	NAddrs   int    `json:"distinct_addresses"`
+	NAddrs   int    `json:"distinct_addresses"` // 0: only the addresses the key events need
 	Restarts string `json:"restarts"` // "none" | "every" (new store after every commit) | "last" (only before the final verification)
 }
 
 func (p ParamsB) String() string {
+	if p.NAddrs == 0 {
+		return fmt.Sprintf("keys=%d addresses=as-many-as-the-key-events-need restarts=%s", p.NKeys, p.Restarts)
+	}
 	return fmt.Sprintf("keys=%d addresses=%d restarts=%s", p.NKeys, p.NAddrs, p.Restarts)
 }
 
@@ -328,17 +331,20 @@ var coinsB = []uint64{0, 1, MaxU32}
 // PlanB lays the events out: keys 1..30000 at height 10, 30001..65530 at
 // height 20, 65531..NKeys at height 30 (so the keys around number 65536 sit in
 // a small batch of their own), and at height 40 a batch that uses old and new
-// keys again. Key number n (1-based) is first used by an event of type
-// (n-1) mod 6 of {reward, slash, jail, unbond, kick, move} (the types whose
-// keys go through the id table; a removeCandidate event, which is stored with
-// its key inline, follows for every 11th key); every event that has an
-// address takes a fresh one; unlock / expired-order
-// events with further fresh addresses fill up to NAddrs. Unbond events without
+// keys again. In the two bulk heights two of three events are stake moves that
+// introduce two new keys each, the third is a reward / slash / jail / unbond /
+// kick with one new key; at height 30 key number n (1-based) is first used by
+// an event of type (n-1) mod 6 of {reward, slash, jail, unbond, kick, move}.
+// These are the types whose keys go through the id table; a removeCandidate
+// event, which is stored with its key inline, follows now and then with an
+// already known key. Every event that has an address takes a fresh one;
+// unlock / expired-order events with further fresh addresses fill up to NAddrs
+// (when NAddrs is larger than what the key events use). Unbond events without
 // a key are sprinkled in (a nil key is stored as id 0).
 func PlanB(p ParamsB) (batches [4][]Spec, keysAfter [4]int) {
 	addr := 0
 	next := func() int { addr++; return addr - 1 }
-	keyEvent := func(i int) Spec {
+	vals := func(i int) (string, uint64) {
 		am := amountsB[i%3]
 		if i%5 == 4 {
 			am = strconv.Itoa(i*1000003 + 11)
@@ -347,7 +353,11 @@ func PlanB(p ParamsB) (batches [4][]Spec, keysAfter [4]int) {
 		if i%4 == 3 {
 			co = uint64(i) + 2
 		}
-		switch i % 6 {
+		return am, co
+	}
+	oneKey := func(i, kind int) Spec {
+		am, co := vals(i)
+		switch kind % 6 {
 		case 0:
 			return Spec{Kind: KReward, Role: []string{"Validator", "Delegator", "DAO", "Developers"}[(i/6)%4], A: next(), K: i, Amount: am, Coin: co}
 		case 1:
@@ -366,10 +376,22 @@ func PlanB(p ParamsB) (batches [4][]Spec, keysAfter [4]int) {
 		if s == 0 || s == 2 {
 			batches[s] = append(batches[s], Spec{Kind: KUnbond, A: next(), K: -1, Amount: "1", Coin: 1})
 		}
-		for i := seg[0]; i < seg[1]; i++ {
-			batches[s] = append(batches[s], keyEvent(i))
-			if i%11 == 0 { // removals are stored without going through the id table, so they reuse a key
-				batches[s] = append(batches[s], Spec{Kind: KRemove, K: i})
+		n := 0
+		for i := seg[0]; i < seg[1]; n++ {
+			switch {
+			case s == 2:
+				batches[s] = append(batches[s], oneKey(i, i))
+				i++
+			case n%3 != 2 && i+1 < seg[1]:
+				am, co := vals(i)
+				batches[s] = append(batches[s], Spec{Kind: KMove, A: next(), K: i, K2: i + 1, Amount: am, Coin: co})
+				i += 2
+			default:
+				batches[s] = append(batches[s], oneKey(i, n/3%5))
+				i++
+			}
+			if n%11 == 0 { // removals do not go through the id table, so they reuse a key
+				batches[s] = append(batches[s], Spec{Kind: KRemove, K: i - 1})
 			}
 		}
 		keysAfter[s] = seg[1]
@@ -399,21 +421,32 @@ func PlanB(p ParamsB) (batches [4][]Spec, keysAfter [4]int) {
 	return
 }
 
-// RunB executes one run of part B.
+// RunB executes one run of part B. The height just committed is loaded and
+// compared after each of the first three commits (and again after the restart
+// that follows, if any); after the last commit - when all keys are in the
+// table - and after the restart that follows it, all four heights are.
 func RunB(p ParamsB) *Result {
 	out := &Result{}
 	r := &run{class: "64k", out: out, db: vdb.NewSet().Get("events")}
 	r.st = ev.NewEventsStore(r.db)
 	batches, keysAfter := PlanB(p)
+	last := len(batches) - 1
+	check := func(i int) {
+		if i == last {
+			r.verifyAll(true)
+		} else {
+			r.verify(&r.commits[len(r.commits)-1])
+		}
+	}
 	for i := range batches {
 		r.keys = keysAfter[i]
 		if !r.commit(HeightsB[i], batches[i], Direct{}) {
 			return out
 		}
-		r.verifyAll(true)
-		if p.Restarts == "every" || (p.Restarts == "last" && i == len(batches)-1) {
+		check(i)
+		if p.Restarts == "every" || (p.Restarts == "last" && i == last) {
 			r.restart()
-			r.verifyAll(true)
+			check(i)
 		}
 	}
 	r.verifyUnused(UnusedHeight)
